@@ -110,7 +110,8 @@ def _valid_z_message_name(name):
 
 
 def _valid_z_segment_name(name):
-    return name.upper().startswith('Z') and len(name) == 3
+    name = name.upper()  # the name is stored upper-cased, and upper-casing can change the length (e.g. 'ß')
+    return name.startswith('Z') and len(name) == 3
 
 
 def _valid_z_field_name(name):
